@@ -1,5 +1,346 @@
 package main
 
-func (x *Exec) inferCandidates(fr *Frame, l *loopRec, st *State, ms *ModSet) []Clause { return nil }
+// Houdini-style inference of simple loop invariants (index bounds) for the
+// no-panic sweeps: candidates are conjectured, the loop body is executed
+// speculatively under the surviving set, and candidates falsified at a back
+// edge are dropped until a fixpoint is reached. The survivors are inductive.
 
-func (x *Exec) houdini(fr *Frame, l *loopRec, entry, head *State, cands []Clause) []Clause { return nil }
+import (
+	"context"
+	"fmt"
+	"go/types"
+	"os"
+	"path/filepath"
+	"regexp"
+	"strings"
+
+	"golang.org/x/tools/go/ssa"
+)
+
+func (x *Exec) wantInfer(fr *Frame, l *loopRec) bool {
+	if l.spec != nil && l.spec.Infer {
+		return true
+	}
+	if fr.spec != nil && fr.spec.InferAll {
+		return true
+	}
+	return x.rootSpec != nil && x.rootSpec.InferAll
+}
+
+type candidate struct {
+	linv
+	alive bool
+}
+
+func isIntLeaf(v Val) bool {
+	return len(v.L) == 1 && (v.S[0].K == SInt || v.S[0].K == SBV) && v.S[0].Bits >= 32
+}
+
+// genCandidates conjectures bounds for every integer cell modified by the loop.
+func (x *Exec) genCandidates(fr *Frame, l *loopRec, st *State, ms *ModSet) []*candidate {
+	var cands []*candidate
+	type intCell struct {
+		id   int
+		name string
+	}
+	var mod, fixed []intCell
+	type lenSrc struct {
+		name string
+		f    func(st *State) (string, *Sort, bool)
+	}
+	var lens []lenSrc
+	cellName := map[int]string{}
+	for v, a := range fr.addrs {
+		if al, ok := v.(*ssa.Alloc); ok && a.K == AKCell {
+			n := al.Comment
+			if n == "" {
+				n = al.Name()
+			}
+			cellName[a.Cell] = n
+		}
+	}
+	for id, v := range st.cells {
+		nm, ok := cellName[id]
+		if !ok {
+			continue
+		}
+		id := id
+		switch {
+		case isIntLeaf(v):
+			if ms.cells[id] {
+				mod = append(mod, intCell{id, nm})
+			} else {
+				fixed = append(fixed, intCell{id, nm})
+			}
+		case v.GT != nil && !ms.cells[id]:
+			switch v.GT.Underlying().(type) {
+			case *types.Slice:
+				lens = append(lens, lenSrc{"len(" + nm + ")", func(s *State) (string, *Sort, bool) {
+					c, ok := s.cells[id]
+					if !ok {
+						return "", nil, false
+					}
+					return c.L[2], c.S[2], true
+				}})
+			case *types.Basic:
+				if v.S[0].K == SStr {
+					lens = append(lens, lenSrc{"len(" + nm + ")", func(s *State) (string, *Sort, bool) {
+						c, ok := s.cells[id]
+						if !ok {
+							return "", nil, false
+						}
+						return x.strLen(c.L[0]), x.idxSort(), true
+					}})
+				}
+			}
+		}
+	}
+	// slice-typed cells modified in the loop still have len >= 0 (type fact); skip
+	cellTerm := func(id int) func(s *State) (string, *Sort, bool) {
+		return func(s *State) (string, *Sort, bool) {
+			c, ok := s.cells[id]
+			if !ok {
+				return "", nil, false
+			}
+			return c.L[0], c.S[0], true
+		}
+	}
+	add := func(name string, f func(s *State) (string, error)) {
+		cands = append(cands, &candidate{linv: linv{name: name, kind: "inferred", eval: f}, alive: true})
+	}
+	for _, m := range mod {
+		m := m
+		get := cellTerm(m.id)
+		for _, k := range []int64{0, -1} {
+			k := k
+			add(fmt.Sprintf("%s >= %d", m.name, k), func(s *State) (string, error) {
+				t, so, ok := get(s)
+				if !ok {
+					return "", fmt.Errorf("dead")
+				}
+				return x.cmp(">=", t, x.numLit(bigInt(k), so), so), nil
+			})
+		}
+		for _, ls := range lens {
+			ls := ls
+			for _, op := range []string{"<=", "<"} {
+				op := op
+				add(fmt.Sprintf("%s %s %s", m.name, op, ls.name), func(s *State) (string, error) {
+					t, so, ok := get(s)
+					lt, lso, ok2 := ls.f(s)
+					if !ok || !ok2 {
+						return "", fmt.Errorf("dead")
+					}
+					return x.cmp(op, x.convert(t, so, lso), lt, lso), nil
+				})
+			}
+		}
+		for _, f := range fixed {
+			f := f
+			getf := cellTerm(f.id)
+			for _, op := range []string{"<=", ">="} {
+				op := op
+				add(fmt.Sprintf("%s %s %s", m.name, op, f.name), func(s *State) (string, error) {
+					t, so, ok := get(s)
+					ft, fso, ok2 := getf(s)
+					if !ok || !ok2 || so.K != fso.K || so.Bits != fso.Bits {
+						return "", fmt.Errorf("dead")
+					}
+					return x.cmp(op, t, ft, so), nil
+				})
+			}
+		}
+		for _, m2 := range mod {
+			if m2.id == m.id {
+				continue
+			}
+			get2 := cellTerm(m2.id)
+			m2 := m2
+			add(fmt.Sprintf("%s <= %s", m.name, m2.name), func(s *State) (string, error) {
+				t, so, ok := get(s)
+				t2, so2, ok2 := get2(s)
+				if !ok || !ok2 || so.K != so2.K || so.Bits != so2.Bits {
+					return "", fmt.Errorf("dead")
+				}
+				return x.cmp("<=", t, t2, so), nil
+			})
+		}
+	}
+	return cands
+}
+
+var getValRe = regexp.MustCompile(`\(\s*([A-Za-z0-9_.$!@]+)\s+(true|false)\s*\)`)
+
+// falsified asks the solver which of the candidates can be false under pc.
+// Returns the set of candidate indexes shown falsifiable (in one model) or nil
+// if all hold. ok=false when the solver could not decide (then all are dropped).
+func (x *Exec) falsified(st *State, terms []string, tag string) (bad map[int]bool, decided bool) {
+	names := make([]string, len(terms))
+	var defs []string
+	for i, t := range terms {
+		names[i] = fmt.Sprintf("cand!%d", i)
+		defs = append(defs, fmt.Sprintf("(declare-const %s Bool)\n(assert (= %s %s))", names[i], names[i], t))
+	}
+	goalBody := "(and " + strings.Join(names, " ") + ")"
+	if len(names) == 1 {
+		goalBody = names[0]
+	}
+	hyps := []string{st.pc}
+	hyps = append(hyps, terms...) // for dependency slicing only; removed below
+	txt := x.vc.Emit([]string{st.pc, "(or true " + strings.Join(terms, " ") + ")"}, "", false)
+	txt = strings.Replace(txt, "(check-sat)\n", strings.Join(defs, "\n")+"\n(assert (not "+goalBody+"))\n(check-sat)\n(get-value ("+strings.Join(names, " ")+"))\n", 1)
+	txt = "(set-option :produce-models true)\n" + txt
+	dir := filepath.Join(outDir(), "out", "infer")
+	os.MkdirAll(dir, 0o755)
+	x.inferN++
+	f := filepath.Join(dir, fmt.Sprintf("%s_%s_%d.smt2", sanitize(shortFn(x.rootFn)), tag, x.inferN))
+	os.WriteFile(f, []byte(txt), 0o644)
+	r := runSolver(context.Background(), solvers[0], f, 5)
+	x.inferQueries++
+	switch r.verdict {
+	case "unsat":
+		return nil, true
+	case "sat":
+		bad = map[int]bool{}
+		for _, m := range getValRe.FindAllStringSubmatch(r.out, -1) {
+			if m[2] == "false" {
+				var idx int
+				fmt.Sscanf(m[1], "cand!%d", &idx)
+				bad[idx] = true
+			}
+		}
+		if len(bad) == 0 {
+			return nil, false
+		}
+		return bad, true
+	}
+	return nil, false
+}
+
+func (x *Exec) houdini(fr *Frame, l *loopRec, entry *State, ms *ModSet, given []linv) []linv {
+	cands := x.genCandidates(fr, l, entry, ms)
+	if len(cands) == 0 {
+		return nil
+	}
+	// 1. entry filter
+	for {
+		var idx []int
+		var terms []string
+		for i, c := range cands {
+			if !c.alive {
+				continue
+			}
+			t, err := c.eval(entry)
+			if err != nil {
+				c.alive = false
+				continue
+			}
+			idx = append(idx, i)
+			terms = append(terms, t)
+		}
+		if len(terms) == 0 {
+			return nil
+		}
+		bad, ok := x.falsified(entry, terms, "entry")
+		if !ok {
+			for _, i := range idx {
+				cands[i].alive = false
+			}
+			return nil
+		}
+		if bad == nil {
+			break
+		}
+		for k := range bad {
+			cands[idx[k]].alive = false
+		}
+	}
+	// 2. inductive filter
+	for round := 0; round < 12; round++ {
+		ns := entry.clone()
+		x.havoc(fr, ns, ms, "hd")
+		for _, c := range given {
+			if t, err := c.eval(ns); err == nil {
+				x.assumeIn(ns, t)
+			}
+		}
+		for _, c := range cands {
+			if c.alive {
+				if t, err := c.eval(ns); err == nil {
+					x.assumeIn(ns, t)
+				}
+			}
+		}
+		nObl := len(x.obls)
+		nUns := len(x.unsup)
+		savedOcc := map[string]int{}
+		for k, v := range x.occ {
+			savedOcc[k] = v
+		}
+		savedCur := x.curState
+		x.speculating++
+		backs := x.runRegion(fr, l.head, ns, l.blocks, l)
+		x.speculating--
+		x.obls = x.obls[:nObl]
+		x.unsup = x.unsup[:nUns]
+		x.occ = savedOcc
+		x.curState = savedCur
+		changed := false
+		for _, bs := range backs {
+			if bs == nil || bs.dead {
+				continue
+			}
+			for {
+				var idx []int
+				var terms []string
+				for i, c := range cands {
+					if !c.alive {
+						continue
+					}
+					t, err := c.eval(bs)
+					if err != nil {
+						c.alive = false
+						changed = true
+						continue
+					}
+					idx = append(idx, i)
+					terms = append(terms, t)
+				}
+				if len(terms) == 0 {
+					break
+				}
+				bad, ok := x.falsified(bs, terms, "ind")
+				if !ok {
+					for _, i := range idx {
+						cands[i].alive = false
+					}
+					changed = true
+					break
+				}
+				if bad == nil {
+					break
+				}
+				for k := range bad {
+					cands[idx[k]].alive = false
+				}
+				changed = true
+			}
+		}
+		if !changed {
+			break
+		}
+		if round == 11 {
+			for _, c := range cands {
+				c.alive = false
+			}
+		}
+	}
+	var out []linv
+	for _, c := range cands {
+		if c.alive {
+			out = append(out, c.linv)
+			x.inferredNames = append(x.inferredNames, fmt.Sprintf("loop%d: %s", l.ordinal, c.name))
+		}
+	}
+	return out
+}
